@@ -27,6 +27,8 @@ struct Case {
     rows: Vec<Vec<Lit>>,
     pred: E,
     int_truthy: bool,
+    /// column with a secondary index (the predicate may then be answered by an index range scan)
+    index_on: Option<usize>,
 }
 
 fn script(c: &Case, names: &[String]) -> String {
@@ -39,6 +41,9 @@ fn script(c: &Case, names: &[String]) -> String {
             r.iter().map(|v| v.sql()).collect::<Vec<_>>().join(", ")
         ));
     }
+    if let Some(ix) = c.index_on {
+        s.push_str(&format!("CREATE INDEX ix_c06 ON {} ({});\n", c.schema.table, c.schema.cols[ix].0));
+    }
     s.push_str(&format!("-- predicate: {}\n-- model request: tvs {} {}\n", c.pred.sql(names), rows_sx(&c.rows), c.pred.sx()));
     s
 }
@@ -49,7 +54,10 @@ fn run_case(c: &Case, model: &mut model::Model, rep: &mut Report) {
     let t = &c.schema.table;
     let mut db = Db::new();
     load(&mut db, &c.schema, &c.rows);
-    let case_id = format!("{} {} {}", rows_sx(&c.rows), c.pred.sx(), c.int_truthy);
+    if let Some(ix) = c.index_on {
+        db.must(&format!("CREATE INDEX ix_c06 ON {} ({})", t, c.schema.cols[ix].0));
+    }
+    let case_id = format!("{} {} {} {:?}", rows_sx(&c.rows), c.pred.sx(), c.int_truthy, c.index_on);
 
     // --- model ---
     let reply = model.ask(&format!("tvs {} {}", rows_sx(&c.rows), c.pred.sx()));
@@ -287,7 +295,7 @@ fn gen_case(r: &mut Rng, size_class: u32) -> Case {
     let int_truthy = r.chance(1, 12);
     let depth = r.range(0, 3) as u32;
     let pred = if int_truthy { g.int(r, 2) } else { g.boolean(r, depth) };
-    Case { schema, rows, pred, int_truthy }
+    Case { schema, rows, pred, int_truthy, index_on: None }
 }
 
 /// Tables of 100–620 rows with a table-local predicate that is an OR / AND tree of
@@ -338,7 +346,71 @@ fn gen_large_or_case(r: &mut Rng) -> Case {
             }
         }
     }
-    Case { schema, rows, pred, int_truthy: false }
+    Case { schema, rows, pred, int_truthy: false, index_on: None }
+}
+
+/// indexed column × conjunctions / disjunctions of bounds on it, in every order and orientation
+/// (upper bound first, literal first, BETWEEN, equality), literals taken from the data
+fn gen_index_range_case(r: &mut Rng) -> Case {
+    let schema = Schema { table: "t".into(), cols: vec![("c0".into(), Ty::Int), ("c1".into(), Ty::Int), ("c2".into(), Ty::Str)] };
+    let n = *r.pick(&[0usize, 1, 7, 20, 45, 130]);
+    let dom = *r.pick(&[4i64, 12, 60]);
+    let rows: Vec<Vec<Lit>> = (0..n)
+        .map(|_| vec![
+            if r.chance(1, 8) { Lit::Null } else { Lit::I(r.range(0, dom)) },
+            if r.chance(1, 8) { Lit::Null } else { Lit::I(r.range(-2, 5)) },
+            if r.chance(1, 8) { Lit::Null } else { Lit::S(r.pick(&["a", "ab", "b", ""]).to_string()) },
+        ])
+        .collect();
+    let ix = if r.chance(5, 6) { 0 } else { 1 };
+    let lit = |r: &mut Rng| -> i64 {
+        match rows.get(r.below(n.max(1) as u64) as usize).map(|row| row[ix].clone()) {
+            Some(Lit::I(v)) if r.chance(4, 5) => v,
+            _ => r.range(0, dom + 1),
+        }
+    };
+    let bound = |r: &mut Rng, lower: bool, v: i64| -> E {
+        let strict = r.chance(1, 2);
+        let (col, l) = (Box::new(E::Col(ix)), Box::new(E::Lit(Lit::I(v))));
+        // lower bound: col > v / col >= v / v < col / v <= col ; upper bound symmetric
+        match (lower, r.chance(1, 2)) {
+            (true, true) => E::Bin(if strict { Op::Gt } else { Op::Ge }, col, l),
+            (true, false) => E::Bin(if strict { Op::Lt } else { Op::Le }, l, col),
+            (false, true) => E::Bin(if strict { Op::Lt } else { Op::Le }, col, l),
+            (false, false) => E::Bin(if strict { Op::Gt } else { Op::Ge }, l, col),
+        }
+    };
+    let (a, b) = (lit(r), lit(r));
+    let (lo, hi) = (a.min(b), a.max(b));
+    let mut pred = match r.below(8) {
+        0 | 1 | 2 => {
+            // two bounds in either order
+            let (x, y) = (bound(r, true, lo), bound(r, false, hi));
+            if r.chance(1, 2) { E::Bin(Op::And, Box::new(x), Box::new(y)) } else { E::Bin(Op::And, Box::new(y), Box::new(x)) }
+        }
+        3 => {
+            let lower = r.chance(1, 2);
+            bound(r, lower, lo)
+        }
+        4 => E::Between(Box::new(E::Col(ix)), Box::new(E::Lit(Lit::I(lo))), Box::new(E::Lit(Lit::I(hi))), r.chance(1, 5)),
+        5 => E::Bin(Op::Eq, Box::new(E::Col(ix)), Box::new(E::Lit(Lit::I(lo)))),
+        6 => {
+            let v = lit(r);
+            E::InList(Box::new(E::Col(ix)), vec![Lit::I(lo), Lit::I(hi), Lit::I(v)], r.chance(1, 5))
+        }
+        _ => {
+            // three bounds: the tighter one must win
+            let (lower, v) = (r.chance(1, 2), lit(r));
+            let (x, y, z) = (bound(r, true, lo), bound(r, false, hi), bound(r, lower, v));
+            E::Bin(Op::And, Box::new(E::Bin(Op::And, Box::new(y), Box::new(x))), Box::new(z))
+        }
+    };
+    if r.chance(1, 4) {
+        // an extra conjunct / disjunct on another column
+        let other = E::Bin(*r.pick(&[Op::Eq, Op::Ne, Op::Lt, Op::Ge]), Box::new(E::Col(1 - ix)), Box::new(E::Lit(Lit::I(r.range(-1, 4)))));
+        pred = if r.chance(3, 4) { E::Bin(Op::And, Box::new(pred), Box::new(other)) } else { E::Bin(Op::Or, Box::new(pred), Box::new(other)) };
+    }
+    Case { schema, rows, pred, int_truthy: false, index_on: Some(ix) }
 }
 
 fn main() {
@@ -375,6 +447,14 @@ fn main() {
         let mut r = rng.fork();
         let c = gen_large_or_case(&mut r);
         rep.count("large_or_tree_cases");
+        run_case(&c, &mut model, &mut rep);
+    }
+    // indexed column × range predicates (the index range scan may answer WHERE p on its own)
+    let n_ix = args.n(250, 6000);
+    for _ in 0..n_ix {
+        let mut r = rng.fork();
+        let c = gen_index_range_case(&mut r);
+        rep.count("index_range_cases");
         run_case(&c, &mut model, &mut rep);
     }
     std::process::exit(rep.finish());
